@@ -625,6 +625,30 @@ def value_sweep_cases(tier):
         if not keep.any():
             continue
         yield dict(name="%s over the value grid (%d points)" % (c["op"], int(keep.sum())), op=c["op"], operands=[grid1[keep].copy()], mg=c["mg"], shadow=c["shadow"], np=c.get("np"), sweep=True)
+    # elementwise nnet activations (complex-safe models written out here)
+    from mygrad.nnet import activations as NA
+
+    def _elu(alpha):
+        return lambda x: np.where(np.real(x) > 0, x, alpha * (np.exp(np.where(np.real(x) > 0, 0, x)) - 1))
+
+    acts = [
+        ("relu", lambda x: NA.relu(x), lambda x: np.where(np.real(x) > 0, x, 0.0)),
+        ("leaky_relu(0.125)", lambda x: NA.leaky_relu(x, slope=0.125), lambda x: np.where(np.real(x) > 0, x, 0.125 * x)),
+        ("elu(0.5)", lambda x: NA.elu(x, alpha=0.5), _elu(0.5)),
+        ("selu", lambda x: NA.selu(x), lambda x: 1.0507009873554805 * _elu(1.6732632423543772)(x)),
+        ("soft_sign", lambda x: NA.soft_sign(x), lambda x: x / (1 + c_abs(x))),
+        ("hard_tanh(-1,1)", lambda x: NA.hard_tanh(x, lower_bound=-1.0, upper_bound=1.0), lambda x: np.where(np.real(x) < -1, -1.0, np.where(np.real(x) > 1, 1.0, x))),
+        ("sigmoid", lambda x: NA.sigmoid(x), lambda x: np.where(np.real(x) >= 0, 1 / (1 + np.exp(-np.where(np.real(x) >= 0, x, 0))),
+                                                             np.exp(np.where(np.real(x) < 0, x, 0)) / (1 + np.exp(np.where(np.real(x) < 0, x, 0))))),
+        ("nnet.tanh", lambda x: NA.tanh(x), np.tanh),
+    ]
+    for name, mgf, sh in acts:
+        with warnings.catch_warnings(), np.errstate(all="ignore"):
+            warnings.simplefilter("ignore")
+            f = np.asarray(sh(grid1))
+            d = _cs_elementwise(sh, [grid1], 0)
+        keep = np.isfinite(np.real(f)) & np.isfinite(d)
+        yield dict(name="%s over the value grid (%d points)" % (name, int(keep.sum())), op=name.split("(")[0], operands=[grid1[keep].copy()], mg=mgf, shadow=sh, np=None, sweep=True)
     import mygrad.tensor_base as tb
 
     A = np.repeat(SWEEP2, len(SWEEP2)).astype(float)
